@@ -13,6 +13,7 @@ from pathlib import Path
 
 HOME = tempfile.mkdtemp(prefix="verif_finding_")
 os.environ["HOME"] = HOME
+__import__("atexit").register(__import__("shutil").rmtree, HOME, ignore_errors=True)
 
 from mxlpy import sbml  # noqa: E402
 
